@@ -220,6 +220,28 @@ func run(repo string) (string, error) {
 	if err != nil {
 		return "", err
 	}
+	// --- signer side: OID columns, defaults of signingParamsForPublicKey, RSA-PSS parameters
+	xo, oo := oidVars(xf), oidVars(of)
+	xdo, err := detailsOid(fset, xf, algo, xo)
+	if err != nil {
+		return "", err
+	}
+	odo, err := detailsOid(fset, of, algo, oo)
+	if err != nil {
+		return "", err
+	}
+	xsd, err := signDefaults(fset, xf, xo)
+	if err != nil {
+		return "", fmt.Errorf("x509: %v", err)
+	}
+	osd, err := signDefaults(fset, of, oo)
+	if err != nil {
+		return "", fmt.Errorf("ocsp: %v", err)
+	}
+	pssOid, ok := xo["oidSignatureRSAPSS"]
+	if !ok {
+		return "", errors.New("oidSignatureRSAPSS not found")
+	}
 	// --- run time: what the creation APIs do
 	rk, err := zrsa.GenerateKey(rand.Reader, 2048)
 	if err != nil {
@@ -261,6 +283,12 @@ func run(repo string) (string, error) {
 	w("arms of the key type switch of CheckSignatureFromKey, in order, with: does the arm reject bytes after the DER signature (`len(rest) != 0`)", "keyCases", "(String × Bool)", keyCases)
 	w("x509 signatureAlgorithmDetails (algo, key algorithm, hash)", "x509Details", "(Nat × String × Nat)", xd)
 	w("ocsp signatureAlgorithmDetails (algo, key algorithm, hash)", "ocspDetails", "(Nat × String × Nat)", od)
+	w("x509 signatureAlgorithmDetails with the OID column (algo, oid, key algorithm, hash)", "x509DetailsOid", "(Nat × List Nat × String × Nat)", xdo)
+	w("ocsp signatureAlgorithmDetails with the OID column (algo, oid, key algorithm, hash)", "ocspDetailsOid", "(Nat × List Nat × String × Nat)", odo)
+	w("x509 signingParamsForPublicKey, type switch and nested curve switch: (Go type[:curve], key algorithm, default hash, default oid, NULL parameters?, shouldHash)", "x509SignDefaults", "(String × String × Nat × List Nat × Bool × Bool)", xsd)
+	w("ocsp signingParamsForPublicKey, type switch and nested curve switch: (Go type[:curve], key algorithm, default hash, default oid, NULL parameters?, shouldHash)", "ocspSignDefaults", "(String × String × Nat × List Nat × Bool × Bool)", osd)
+	b.WriteString("/-- oidSignatureRSAPSS -/\ndef pssOid : List Nat := " + leanNats(pssOid) + "\n")
+	w("run time: (hash, rsaPSSParameters(hash).FullBytes, GetSignatureAlgorithmFromAI{oidSignatureRSAPSS, those parameters}) for every hash on which rsaPSSParameters does not panic", "pssParams", "(Nat × List Nat × Nat)", pssRows(pssOid))
 	w("accepted (api, requested algorithm, key type): algorithm written into the object, PSS options passed to the signer?, hash passed to the signer", "signRows", "(String × Nat × String × Nat × Bool × Nat)", signRows)
 	w("(api, requested algorithm, key type) refused by the creation API", "refusedRows", "(String × Nat × String)", refused)
 	b.WriteString("end ZV.Gen.C03\n")
